@@ -94,6 +94,10 @@ class C01(Check):
 
     def model_checks(self, ctx):
         model_check(ctx, "MC_SimdDispatch", "MC_SimdDispatch.cfg", workers=1)
+        # unbounded companion (Apalache / SMT) of the tiling obligations TLC checks on the plan's shapes: the big-block / small-block /
+        # remainder tiling of the row and column loops partitions [0, L) for EVERY length L
+        if ctx.tier == "thorough":
+            apalache_check(ctx, "TilingUnbounded", "Inv", timeout=1200)
 
     def configs(self, ctx):
         if ctx.tier == "quick":
